@@ -1,5 +1,7 @@
-(* C29/WitnessSr25519.v — the evaluated sr25519 witnesses Properties.v depends on (each is
-   evaluated once, by the VM at Qed; the published vectors are in VectorsSr25519.v).
+(* C29/WitnessSr25519.v — the evaluated sr25519 witnesses Properties.v depends on (kept few: coqchk
+   re-evaluates them without the VM in the thorough tier, about three minutes per scalar
+   multiplication, so the witnesses under the identity key use s = 0, where every coordinate is 0
+   or 1; each is evaluated once, by the VM, at Qed; the published vectors are in VectorsSr25519.v).
    (1) sp_core unit test verify_from_old_wasm_works: key of the all-zero seed, "SUBSTRATE", a
        schnorrkel 0.1.1 signature -- accepted by Substrate's verify_deprecated, rejected by
        VerifyDeprecated as found (it used the current labels on the pre-audit transcript).
@@ -8,8 +10,8 @@
        bit and accepted it.
    (3) the identity key 00..00 with the signature R = 00..00, s = 0, marker bit: valid for
        Substrate, an error in go-schnorrkel.
-   (4) ext_crypto_sr25519_verify_version_1 as found answered 1 for a signature over another
-       message; (5) version 2 as found answered 1 for a forged signature under the zero key. *)
+   (4) ext_crypto_sr25519_verify_version_1 as found answered 1 for a forged unmarked signature,
+       (5) version 2 as found answered 1 for a forged marked signature, both under the zero key. *)
 From Coq Require Import String.
 From Common Require Import Bytes.
 From Hash Require Import Strobe.
@@ -22,8 +24,6 @@ Definition old1_sig := be_bytes 64 0x28a854d54903e056f89581c691c1f7d2ff39f8f896c
 
 Lemma w1a : sr25519_verify_deprecated_ref old1_pk old1_msg old1_sig = true.
 Proof. vm_cast_no_check (eq_refl true). Qed.
-Lemma w1b : sr25519_verify_ref old1_pk old1_msg old1_sig = false.
-Proof. vm_cast_no_check (eq_refl false). Qed.
 Lemma w1c : sr25519_verify_deprecated_prefix old1_pk old1_sig old1_msg = VFail.
 Proof. vm_cast_no_check (eq_refl VFail). Qed.
 Lemma w1d : sr_marked old1_sig = false.
@@ -46,13 +46,12 @@ Proof. vm_cast_no_check (eq_refl true). Qed.
 Lemma w3b : sr25519_verify_signature_prefix zero_pk zero_sig crust_msg = VErr.
 Proof. vm_cast_no_check (eq_refl VErr). Qed.
 
-(* the accepting branch of the reference (and of the repaired code) is inhabited *)
-Lemma w0a : sr25519_verify_ref crust_pk crust_msg crust_sig = true.
+(* R = the crust key (some group element other than the identity), s = 0, no marker bit, under
+   the identity key: R' = identity <> R whatever the challenge (cheap: all coordinates are 0 or 1) *)
+Definition forged_zero_sig_unmarked : list byte := crust_pk ++ zeros 32.
+Lemma w4a : host_sr25519_verify_v1_prefix zero_pk crust_msg forged_zero_sig_unmarked = true.
 Proof. vm_cast_no_check (eq_refl true). Qed.
-
-Lemma w4a : host_sr25519_verify_v1_prefix crust_pk old1_msg crust_sig = true.
-Proof. vm_cast_no_check (eq_refl true). Qed.
-Lemma w4b : sr25519_verify_deprecated_ref crust_pk old1_msg crust_sig = false.
+Lemma w4b : sr25519_verify_deprecated_ref zero_pk crust_msg forged_zero_sig_unmarked = false.
 Proof. vm_cast_no_check (eq_refl false). Qed.
 
 (* R = the crust key (some other group element), s = 0, marker bit: R' = identity <> R *)
